@@ -272,6 +272,26 @@ class Interp:
                 return ('ref', Cell(('opaque', 'str')))
             if c.get('uneval'):
                 nm = strip_generics(c['uneval'])
+                # a constant whose (small, pure) defining body is in the facts: evaluate it — `&Observation::Fresh`, a lookup
+                # table of (offset, width) pairs — rather than treating it as an unknown
+                cb_name = ('%s::{promoted#%d}' % (c['uneval'], c['promoted'])) if c.get('promoted') is not None else c['uneval']
+                cb = self.facts.bodies.get(cb_name) or (self.facts.body(nm) if c.get('promoted') is None else None)
+                if cb is not None and len(cb.blocks) <= 12 and getattr(cb, 'owner_kind', cb.kind) in ('fn', 'method', 'const', 'static', 'anonconst', 'coroutine', 'closure', 'promoted') \
+                        and (c.get('promoted') is not None or cb.kind in ('const', 'anonconst')):
+                    cache = self.__dict__.setdefault('const_cache', {})
+                    if cb_name not in cache:
+                        try:
+                            saved = (self.cur if hasattr(self, 'cur') else None)
+                            cache[cb_name] = self.run_body(cb, [], 1)
+                            if saved is not None:
+                                self.cur = saved
+                        except (Unmodelled, PanicPath, NeedChoice, IndexError, KeyError, TypeError):
+                            cache[cb_name] = None
+                    if cache[cb_name] is not None:
+                        cv = cache[cb_name]
+                        dv_ = self.deref_all(cv)
+                        if dv_ is not None and dv_[0] in ('adt', 'arr', 'tuple', 'int', 'bool'):
+                            return clone_value(cv) if cv[0] != 'ref' else ('ref', Cell(clone_value(dv_)))
                 if c.get('promoted') is not None:
                     # a promoted constant of this body: what it refers to (e.g. a named constant of the crate)
                     pb = self.facts.bodies.get('%s::{promoted#%d}' % (c['uneval'], c['promoted']))
@@ -828,6 +848,7 @@ class Interp:
             dv = self.deref_all(A[0])
             if dv is not None and dv[0] == 'adt':
                 return ('int', dv[2])
+            raise Unmodelled('discriminant of %r' % (dv,))
         if name == 'core::default::Default::default' and not A:
             body_, t_ = getattr(self, 'cur', (None, None))
             v_ = self.default_by_type(body_.local_ty(t_['dest']['l'])) if body_ is not None and not t_['dest']['p'] else None
